@@ -57,6 +57,7 @@ func (n *BlockNode) render(w *trimWriter, ctx nodeContext) Error {
 }
 
 func (n *RawNode) render(w *trimWriter, ctx nodeContext) Error {
+	w.BeginExact()
 	for _, s := range n.slices {
 		_, err := io.WriteString(w, s)
 		if err != nil {
@@ -64,7 +65,7 @@ func (n *RawNode) render(w *trimWriter, ctx nodeContext) Error {
 			return wrapRenderError(err, invalidLoc)
 		}
 	}
-	return nil
+	return wrapRenderError(w.EndExact(), invalidLoc)
 }
 
 func (n *ObjectNode) render(w *trimWriter, ctx nodeContext) Error {
@@ -75,10 +76,11 @@ func (n *ObjectNode) render(w *trimWriter, ctx nodeContext) Error {
 	if value == nil && ctx.config.StrictVariables {
 		return wrapRenderError(errors.New("undefined variable"), n)
 	}
+	w.BeginExact()
 	if err := wrapRenderError(writeObject(w, value), n); err != nil {
 		return err
 	}
-	return nil
+	return wrapRenderError(w.EndExact(), n)
 }
 
 func (n *SeqNode) render(w *trimWriter, ctx nodeContext) Error {
